@@ -120,6 +120,21 @@ func (m *Monitor) onReady(r *Replica, rd *raft.Ready, hasSnap bool) {
 	if s.viol != nil {
 		return
 	}
+	// A replica whose configuration base is a snapshot (installed, or restored
+	// at restart) knows exactly the snapshot's members plus the conf entries it
+	// applied since: requests it originates go to those replicas only.
+	if (r.confFromSnap || hasSnap) && r.stepConfKnown {
+		for i := range rd.Messages {
+			mm := &rd.Messages[i]
+			switch mm.Type {
+			case pb.MsgVote, pb.MsgPreVote, pb.MsgApp, pb.MsgHeartbeat, pb.MsgSnap, pb.MsgTimeoutNow:
+				if mm.To != 0 && mm.To != r.id && !hasID(r.stepConf.Nodes, mm.To) && !hasID(r.stepConf.Learners, mm.To) {
+					s.violate("message-to-nonmember-after-snapshot", []string{"C01"}, "replica %d sends %s (term %d) to replica %d, which is neither in the snapshot configuration it restored nor added since (its configuration: voters %v learners %v)", r.id, mm.Type, mm.Term, mm.To, r.stepConf.Nodes, r.stepConf.Learners)
+					return
+				}
+			}
+		}
+	}
 	// learner clause, against the replica's own applied configuration (a
 	// snapshot carried by this Ready already reconfigured the raft state).
 	conf, known := r.stepConf, r.stepConfKnown
